@@ -451,11 +451,18 @@ def run_generic(case, ctx):
     Wd0 = rng.uniform(-1, 1, (2, 2))
     cols = [0, 2] if rng.random() < 0.5 else [2, 1]
     ssl = net.append(pym.EinSum([sd[:, cols], pym.Signal("Wd", Wd0.copy())], expression="ij,ij->"))
+    # a *scalar* complex intermediate signal with two consumers; the one that is back-propagated first (appended last) contributes a
+    # real-typed sensitivity, the other a complex one
+    ds0 = float(rng.uniform(0.5, 2))
+    sds = pym.Signal("ds", ds0)
+    szs = net.append(pym.MakeComplex([scs, sds]))
+    sab = net.append(pym.ComplexNorm(szs))
+    srp = net.append(pym.RealPart(szs))
     with warnings.catch_warnings():
         warnings.simplefilter("ignore")
         net.response()
-    w = rng.standard_normal(5)
-    which = [bool(rng.integers(0, 2)) for _ in range(5)]
+    w = rng.standard_normal(7)
+    which = [bool(rng.integers(0, 2)) for _ in range(7)]
     if not any(which):
         which[1] = True
     if which[0]:
@@ -468,8 +475,13 @@ def run_generic(case, ctx):
         sww.sensitivity = float(w[3])
     if which[4]:
         ssl.sensitivity = float(w[4])
+    if which[5]:
+        sab.sensitivity = float(w[5])
+    if which[6]:
+        srp.sensitivity = float(w[6])
     net.sensitivity()
     ga, gb, gc, gd, ge = sa.sensitivity, sb.sensitivity, scs.sensitivity, sd.sensitivity, se.sensitivity
+    gds = sds.sensitivity
 
     def F(a, b, c):
         z = a + 1j * b
@@ -484,7 +496,7 @@ def run_generic(case, ctx):
         va, vb, vc = rng.standard_normal(n), rng.standard_normal(n), float(rng.standard_normal())
         h = 1e-30      # complex-step on my own forward model is exact for these analytic real functions ... except |z|: use real formula
         # |a+ib| is not complex-analytic in (a,b): write it as sqrt(a^2+b^2), which is
-        def Fcs(a, b, c, d, e):
+        def Fcs(a, b, c, d, e, ds):
             cat = np.concatenate([a[1:], [c], np.sqrt(a * a + b * b), d.ravel()])
             m = np.sin(cat) * c + cat ** 2
             dot = np.sum(m[:n] * a)
@@ -492,12 +504,15 @@ def run_generic(case, ctx):
             sc_ = 10.0 * (pn / maxval - 1)
             return (w[0] * dot if which[0] else 0.0) + (w[1] * sc_ if which[1] else 0.0) + \
                 (w[2] * (b @ e @ b) if which[2] else 0.0) + (w[3] * np.sum(W0 * (e @ e)) if which[3] else 0.0) + \
-                (w[4] * np.sum(Wd0 * d[:, cols]) if which[4] else 0.0)
+                (w[4] * np.sum(Wd0 * d[:, cols]) if which[4] else 0.0) + \
+                (w[5] * np.sqrt(c * c + ds * ds) if which[5] else 0.0) + (w[6] * c if which[6] else 0.0)
         vd = rng.standard_normal((2, 3))
         ve = rng.standard_normal((n, n))
-        ref = float(np.imag(Fcs(a0 + 1j * h * va, b0 + 1j * h * vb, c0 + 1j * h * vc, d0 + 1j * h * vd, e0 + 1j * h * ve)) / h)
+        vds = float(rng.standard_normal())
+        ref = float(np.imag(Fcs(a0 + 1j * h * va, b0 + 1j * h * vb, c0 + 1j * h * vc, d0 + 1j * h * vd, e0 + 1j * h * ve, ds0 + 1j * h * vds)) / h)
         an = float(np.sum((0 if ga is None else ga) * va) + np.sum((0 if gb is None else gb) * vb) + (0 if gc is None else gc) * vc
-                   + np.sum((0 if gd is None else np.asarray(gd)) * vd) + np.sum((0 if ge is None else np.asarray(ge)) * ve))
+                   + np.sum((0 if gd is None else np.asarray(gd)) * vd) + np.sum((0 if ge is None else np.asarray(ge)) * ve)
+                   + float(np.real(0 if gds is None else gds)) * vds)
         err = abs(an - ref) / max(abs(an), abs(ref), 1e-12)
         worst = max(worst, err)
         if not err <= 1e-9:
